@@ -43,7 +43,11 @@ def gen_a(rng, sc, tier):
         if change_at and rng.random() < 0.5:
             verdicts.append(("dave", "late", change_at, 0))
             sc.cmds.append({"argv": ["authprog", "--user", "dave", "--pass", "late"], "exit": 0, "latency_ms": lat, "from_ms": change_at, "until_ms": 0})
-        sc.extra["cmd_default_exit"] = 1
+        # every pair the program does not accept: it exits with some non-zero status, or dies from a signal (negative value)
+        sc.extra["cmd_default_exit"] = rng.choice([1, 1, 1, 2, 255, 126, -11, -9, -6])
+        for (u, p) in [("mallory", "s3cret"), ("alice", "wrong"), ("bob", "Builder")]:
+            if rng.random() < 0.3:
+                sc.cmds.append({"argv": ["authprog", "--user", u, "--pass", p], "exit": rng.choice([-11, -9, 255, 2]), "latency_ms": lat, "from_ms": 0, "until_ms": 0})
         for c in sc.cmds:
             pass
     li = sc.add_socks_listener("l", auth=auth)
